@@ -36,7 +36,7 @@ PROPS = {
                 gen_items=["skeletons", "concAcc", "localAcc"], trusted=SEQ_TRUST + ["allocator outside the model"]),
     "C08": dict(module="MRB.Props.C08", level="proof", profiles=[prof("own", 600), prof("asyncown", 150, 1500, features=["async"], binary="asyncdiff")], also_tags=[],
                 gen_items=["storeKinds", "pins"], trusted=SEQ_TRUST + ["live values are never all-zero bytes (property assumption)"]),
-    "C09": dict(module="MRB.Props.C09", level="proof", profiles=[prof("own", 600)],
+    "C09": dict(module="MRB.Props.C09", level="proof", profiles=[prof("own", 600), prof("vmemown", 5, 40, features=["vmem"], seeds_thorough=2)],
                 gen_items=["storeKinds", "pins"], trusted=SEQ_TRUST + ["live values are never all-zero bytes (property assumption)"]),
     "C13": dict(module="MRB.Props.C13", level="translation_validation", profiles=[prof("all", 800), prof("own", 300), prof("async", 200, 2000, features=["async"], binary="asyncdiff"), prof("asyncown", 100, 1000, features=["async"], binary="asyncdiff")], engines=["adetprobe"],
                 also_tags=["C01", "C04", "C05", "C06", "C07", "C08", "C09", "C11", "C12", "C14", "C18"],
